@@ -16,7 +16,7 @@ var specs = map[string]propSpec{}
 var realVsStub = map[string]interface{}{}
 
 func init() {
-	for _, p := range []string{"C01", "C02", "C03", "C04", "C07", "C09", "C10"} {
+	for _, p := range []string{"C01", "C02", "C03", "C04", "C06", "C07", "C09", "C10", "C11"} {
 		specs[p] = propSpec{World: "ipam", Level: "exploration", Quick: 25, Thorough: 600, Rule: ruleW1, Assume: assumeW1}
 	}
 	realVsStub["ipam"] = map[string]string{
